@@ -321,6 +321,16 @@ let bits_line which line =
     else show (M.rbr_run (M.rbr_new (unhex src)) ops)
   | _ -> "bad"
 
+(* ---- sequences section: decode with the model, encode again with the model of the compressor's stream ---- *)
+let seqenc_line line =
+  match List.filter (fun x -> x <> "") (split_on ' ' line) with
+  | [nseq; modes; src] ->
+    (match M.decode_reencode (z_of_string nseq) (z_of_string modes) (unhex src) with
+     | M.ROk ((seqs, orig), again) -> Printf.sprintf "ok %d %s %s" (List.length seqs) (hex orig) (hex again)
+     | M.RErr _ -> "err"
+     | M.RPanic _ -> "panic")
+  | _ -> "bad"
+
 let () =
   let cmd = if Array.length Sys.argv > 1 then Sys.argv.(1) else "" in
   let f = match cmd with
@@ -330,6 +340,7 @@ let () =
     | "matcher" -> matcher_line
     | "frame" -> frame_line
     | "io" -> io_line
+    | "seqenc" -> seqenc_line
     | "bits64" -> bits_line 0
     | "bitsabs" -> bits_line 1
     | _ -> prerr_endline "usage: driver <prog|fse|huf> < cases"; exit 2 in
